@@ -32,7 +32,7 @@ def run(ctx):
     def stages(ctx, mult, suffix, off):
         stage(ctx, n * mult, suffix, off)
     return standard(ctx, "C02", ["model/C02_run.vo"], stages,
-                    rule="PUT of 0/1/100000 bytes on 1-2 Directory volumes (prior copy absent/intact/corrupt on either volume, one read-only variant): "
+                    rule="PUT of 0/1/100000 bytes on 1-2 Directory volumes (prior copy absent/intact/corrupt on either volume, one read-only variant, volumes marked full: the round-robin choice / the other one / both / the only one): "
                          "every scenario once undisturbed, plus sampled (quick) or all (thorough) runs with SIGKILL of a child process at yield point k "
                          "and with client disconnect at yield point k; every case counts as non-trivial",
                     assumptions=["a crash is SIGKILL of the keepstore process (no power loss: missing fsync is outside the property and the model)",
